@@ -7,7 +7,7 @@
 import Mfi.Model.Bank
 import Mfi.Model.Ix
 import Mfi.Lemmas.BankL
-import Mfi.Props.C03
+import Mfi.Lemmas.FreeL
 import Mfi.Lemmas.FxL
 import Mfi.Lemmas.ResL
 import Mfi.Props.C18
@@ -272,7 +272,7 @@ theorem ix_deposit_at_accrued {e : Env} {b b' : Bank} {bal x' : Option Balance} 
     obtain ⟨r, hi, h⟩ := Res.bind_ok h
     obtain ⟨_, _, h⟩ := Res.bind_ok h
     injection h with h; injection h with hb _; subst hb
-    exact C03.inc_sv (x' := r.2) (b' := r.1) hi
+    exact Mfi.FreeL.inc_sv (x' := r.2) (b' := r.1) hi
 
 theorem ix_withdraw_at_accrued {e : Env} {b b' : Bank} {bal x' : Option Balance} {amount t : Int} {all : Bool}
     (h : Ix.withdraw e b bal amount all = .ok (b', x', t)) : AtAccrued e b b' := by
@@ -290,7 +290,7 @@ theorem ix_withdraw_at_accrued {e : Env} {b b' : Bank} {bal x' : Option Balance}
     · obtain ⟨_, _, h⟩ := Res.bind_ok h
       obtain ⟨⟨b2, x2⟩, hd, h⟩ := Res.bind_ok h
       injection h with h; injection h with hb _; subst hb
-      exact C03.dec_sv hd
+      exact Mfi.FreeL.dec_sv hd
 
 theorem ix_repay_at_accrued {e : Env} {b b' : Bank} {bal x' : Option Balance} {amount t : Int} {all : Bool}
     (h : Ix.repay e b bal amount all = .ok (b', x', t)) : AtAccrued e b b' := by
@@ -311,7 +311,7 @@ theorem ix_repay_at_accrued {e : Env} {b b' : Bank} {bal x' : Option Balance} {a
       dsimp only at h
       obtain ⟨_, _, h⟩ := Res.bind_ok h
       injection h with h; injection h with hb _; subst hb
-      exact C03.inc_sv hd
+      exact Mfi.FreeL.inc_sv hd
 
 theorem ix_borrow_at_accrued {e : Env} {b b' : Bank} {bal x' : Option Balance} {amount t : Int}
     (h : Ix.borrow e b bal amount = .ok (b', x', t)) : AtAccrued e b b' := by
@@ -326,7 +326,7 @@ theorem ix_borrow_at_accrued {e : Env} {b b' : Bank} {bal x' : Option Balance} {
     obtain ⟨tot, _, h⟩ := Res.bind_ok h
     obtain ⟨⟨b2, x2⟩, hd, h⟩ := Res.bind_ok h
     dsimp only at h
-    have hs := C03.dec_sv hd
+    have hs := Mfi.FreeL.dec_sv hd
     split at h
     · injection h with h; injection h with hb _; subst hb; exact hs
     · split at h
@@ -335,7 +335,7 @@ theorem ix_borrow_at_accrued {e : Env} {b b' : Bank} {bal x' : Option Balance} {
       · injection h with h; injection h with hb _; subst hb; exact hs
   · obtain ⟨⟨b2, x2⟩, hd, h⟩ := Res.bind_ok h
     injection h with h; injection h with hb _; subst hb
-    exact C03.dec_sv hd
+    exact Mfi.FreeL.dec_sv hd
 
 end ix
 
@@ -466,7 +466,7 @@ theorem borrowCore_sv {e : Ix.Env} {b b' : Bank} {x x' : Balance} {amount t : In
     obtain ⟨tot, _, h⟩ := Res.bind_ok h
     obtain ⟨⟨b2, x2⟩, hd, h⟩ := Res.bind_ok h
     dsimp only at h
-    have hs := C03.dec_sv hd
+    have hs := Mfi.FreeL.dec_sv hd
     split at h
     · injection h with h; injection h with hb _; subst hb; exact hs
     · split at h
@@ -475,7 +475,7 @@ theorem borrowCore_sv {e : Ix.Env} {b b' : Bank} {x x' : Balance} {amount t : In
       · injection h with h; injection h with hb _; subst hb; exact hs
   · obtain ⟨⟨b2, x2⟩, hd, h⟩ := Res.bind_ok h
     injection h with h; injection h with hb _; subst hb
-    exact C03.dec_sv hd
+    exact Mfi.FreeL.dec_sv hd
 
 /-- **world_instructions_run_at_accrued_values**: each of the five whole instructions, whenever it succeeds, has accrued
     the bank to the current time first, and every share it books, every token it moves and the health check at its end
@@ -498,7 +498,7 @@ theorem world_instructions_run_at_accrued_values (c : Ctx) :
       obtain ⟨pre, _, hd⟩ := Res.bind_ok hd
       injection hd with hd; injection hd with hb' _
       rw [← hb']
-      exact C03.inc_sv (by simpa using hr)
+      exact Mfi.FreeL.inc_sv (by simpa using hr)
   · intro amt o h
     obtain ⟨b, slots, i, x, x', hb, _, _, _, _, hcore, _⟩ := (borrow_ok h).core
     exact ⟨b, hb, borrowCore_sv hcore⟩
@@ -513,7 +513,7 @@ theorem world_instructions_run_at_accrued_values (c : Ctx) :
       obtain ⟨p, _, hcore⟩ := Res.bind_ok hcore
       obtain ⟨⟨b2, x2⟩, hd, hcore⟩ := Res.bind_ok hcore
       injection hcore with hcore; injection hcore with hb' _; subst hb'
-      exact C03.dec_sv hd
+      exact Mfi.FreeL.dec_sv hd
   · intro amt all o h
     obtain ⟨b, i, s, b', x', post, hb, _, hcore, _, hbooks, _⟩ := (repay_ok h).core
     refine ⟨b, hb, ?_⟩
@@ -526,7 +526,7 @@ theorem world_instructions_run_at_accrued_values (c : Ctx) :
       simp only [Bool.false_eq_true, if_false] at hcore
       obtain ⟨⟨b2, x2⟩, hd, hcore⟩ := Res.bind_ok hcore
       injection hcore with hcore; injection hcore with hb' _; subst hb'
-      exact C03.inc_sv hd
+      exact Mfi.FreeL.inc_sv hd
   · intro o h
     obtain ⟨b, i, s, x', hb, _⟩ := (close_ok h).core
     exact ⟨b, hb⟩
